@@ -104,7 +104,8 @@ Definition model_obs (c : rcase) : sx :=
   else
     let D0 := dest_of (rc_A c) in
     let sorted := sort_by fst (ds_map r) in
-    SL [SN 0; SL (map SB (ds_reqs r)); SL (map enc_notif (ds_notifs r)); SL (map (canon_entry D0 sorted) sorted)].
+    SL [SN 0; SL (map SB (ds_reqs r)); SL (map enc_notif (sort_by notif_path (ds_notifs r)));
+        SL (map (canon_entry D0 sorted) sorted)].
 
 Definition impl_obs (c : rcase) : sx :=
   if rc_err c then SL [SN 1]
